@@ -127,7 +127,7 @@ class MultiscaleMonitor:
 class C15:
     prop = "C15"
     level = "exploration"
-    budgets = {"quick": 300, "thorough": 12000}
+    budgets = {"quick": 450, "thorough": 12000}
     warm_refinement = True
     scenario_timeout = 600
 
